@@ -621,3 +621,113 @@ def _copy_read_ok(ctx, fi, g, rd, node, c, lenparam):
     if not left:
         return False, 'read size %s is not min(..., remaining length)' % norm(size)
     return True, ''
+
+
+@rule('SA-SEEK.advance')
+@props('C16')
+def advance(ctx):
+    """Reading never moves the position backwards: in every method of the file object that reads, the amount added to
+    the position (`self._offset += E`) is provably >= 0 under the conditions that hold there.  `length - offset` is
+    negative once the caller has seeked past the end, so it may be added only behind a test that the position is inside
+    the file (or that the amount is positive); a `size` argument only where it was found to be neither None nor
+    negative.  An in-memory stream that is asked to read at a position past its end returns b'' and stays where it is;
+    a position pulled back to the end makes every later relative seek and tell() disagree with it."""
+    from .. import expand as ex
+    ci, methods = _io_methods(ctx)
+    obs = []
+    n = 0
+    for fi in methods:
+        if fi.name in ('seek', '__init__'):
+            continue
+        if not any(_is_read(ctx, c) for nd in ctx.cfg(fi).nodes for c in _calls_in(nd)):
+            continue
+        g, RD = ex._rd(ctx, fi)
+        dom = g.dominators()
+        for st in ctx.own_nodes(fi):
+            if not (isinstance(st, ast.AugAssign) and isinstance(st.op, ast.Add) and isinstance(st.target, ast.Attribute) and st.target.attr == OFF and
+                    isinstance(st.target.value, ast.Name) and st.target.value.id == 'self'):
+                continue
+            n += 1
+            why = _nonneg(ctx, fi, g, RD, dom, st.value, st, 0)
+            obs.append(Ob('SA-SEEK.advance', '%s|self.%s += %s' % (fi.qual, OFF, norm(st.value)), why is None, ctx.loc(fi, st),
+                          '' if why is None else 'the position is advanced by `%s`, which is not known to be >= 0 here (%s): after a seek beyond the end of the file the '
+                          'read pulls the position back, and tell() / relative seeks no longer behave like those of an in-memory stream' % (norm(st.value), why)))
+    if n < 1:
+        raise AnalysisError('anchor-vanished: position updates in the reading methods of %s (%d)' % (IO_CLASS, n))
+    return obs
+
+
+def _facts(ctx, fi, st):
+    from .. import expand as ex
+    out = []
+    for test, pol, at in ex.conditions(ctx, fi, st):
+        for t, p in ex.conjuncts(test, pol):
+            out.append((t, p, at))
+    return out
+
+
+def _nonneg(ctx, fi, g, RD, dom, e, st, depth):
+    """None if e >= 0 whenever st executes, else a reason"""
+    if depth > 6:
+        return 'too deep'
+    if isinstance(e, ast.Constant) and isinstance(e.value, int):
+        return None if e.value >= 0 else 'negative constant'
+    if isinstance(e, ast.Call) and isinstance(e.func, ast.Name) and e.func.id == 'len':
+        return None
+    if isinstance(e, ast.Call) and isinstance(e.func, ast.Name) and e.func.id == 'min' and e.args and not e.keywords:
+        for a in e.args:
+            w = _nonneg(ctx, fi, g, RD, dom, a, st, depth + 1)
+            if w:
+                return w
+        return None
+    if isinstance(e, ast.Call) and isinstance(e.func, ast.Name) and e.func.id == 'max' and e.args and not e.keywords:
+        ws = [_nonneg(ctx, fi, g, RD, dom, a, st, depth + 1) for a in e.args]
+        return None if any(w is None for w in ws) else ws[0]
+    facts = _facts(ctx, fi, st)
+    txt = norm(e).replace(' ', '')
+    node = g.node_of(st)
+
+    def fact_says_nonneg(t, p):
+        if not (isinstance(t, ast.Compare) and len(t.ops) == 1):
+            return False
+        l, r, op = norm(t.left).replace(' ', ''), norm(t.comparators[0]).replace(' ', ''), t.ops[0]
+        if l == txt and r == '0':
+            return (p and isinstance(op, (ast.Gt, ast.GtE))) or (not p and isinstance(op, ast.Lt))
+        if r == txt and l == '0':
+            return (p and isinstance(op, (ast.Lt, ast.LtE))) or (not p and isinstance(op, ast.Gt))
+        return False
+    if isinstance(e, ast.Name):
+        defs = sorted(set(d for nm, d in (RD.get(node.id) if node is not None else ()) or () if nm == e.id))
+        for t, p, at in facts:
+            if fact_says_nonneg(t, p):
+                # the test speaks about the value that is used if every definition reaching the use reaches the test too
+                tn = g.node_of(at) if isinstance(at, ast.stmt) else None
+                if tn is not None:
+                    at_test = set(d for nm, d in (RD.get(tn.id) or ()) if nm == e.id)
+                    rest = [d for d in defs if d not in at_test]
+                    if all(isinstance(g.nodes[d].stmt, ast.Assign) and _nonneg(ctx, fi, g, RD, dom, g.nodes[d].stmt.value, g.nodes[d].stmt, depth + 1) is None for d in rest):
+                        return None
+        real = [d for d in defs if g.nodes[d].stmt is not None and g.nodes[d].kind == 'stmt']
+        if real and len(real) == len(defs) and all(isinstance(g.nodes[d].stmt, ast.Assign) for d in real):
+            for d in real:
+                w = _nonneg(ctx, fi, g, RD, dom, g.nodes[d].stmt.value, g.nodes[d].stmt, depth + 1)
+                if w:
+                    return w
+            return None
+        return '`%s` is not tested against 0 on the way' % e.id
+    if isinstance(e, ast.BinOp) and isinstance(e.op, ast.Sub):
+        a, b = norm(e.left).replace(' ', ''), norm(e.right).replace(' ', '')
+        for t, p, _at in facts:
+            if fact_says_nonneg(t, p):
+                return None
+            if isinstance(t, ast.Compare) and len(t.ops) == 1:
+                l, r, op = norm(t.left).replace(' ', ''), norm(t.comparators[0]).replace(' ', ''), t.ops[0]
+                if l == b and r == a and ((not p and isinstance(op, (ast.GtE, ast.Gt))) or (p and isinstance(op, (ast.Lt, ast.LtE)))):
+                    return None
+                if l == a and r == b and ((p and isinstance(op, (ast.Gt, ast.GtE))) or (not p and isinstance(op, (ast.Lt, ast.LtE)))):
+                    return None
+        return 'nothing on the way says that %s has not passed %s' % (norm(e.right), norm(e.left))
+    for t, p, _at in facts:
+        if fact_says_nonneg(t, p):
+            return None
+    return 'no test of `%s` against 0 on the way' % norm(e)
